@@ -77,6 +77,23 @@ prop("C12", kind="sim", quick_runs=4000, thorough_s=600,
              "path_kind:absent-sibling", "path_kind:shadow", "path_kind:list-nokey", "path_kind:garbage"])
 
 
+prop("C10", kind="sim", quick_runs=4000, thorough_s=600,
+     rule="one run = one seeded tree and a history of 1-6 (thorough: up to 16) SetNode(InitMissingElements) calls at leaf / leaf-list paths drawn by a random "
+          "descent of the schema (existing or freshly keyed list entries on the way, every key type), payload a scalar TypedValue or JSON-IETF value built "
+          "by the harness's own encoders from a type-correct generated value; after each successful set the walker's leaf set must differ from the previous "
+          "one only in the target leaf and in key leaves of entries created on the way, and GetNode must return exactly one node holding the value in the "
+          "leaf's Go type; distinct = distinct (package, per-step outcome trace) hashes; non-trivial = at least one set succeeded",
+     fault_kinds=["failing_set", "bad:illtyped", "bad:unknown-path", "bad:missing-key"],
+     probes=["set_ok", "set_ok:tv", "set_ok:json", "set_created_entry", "set_ok:json_tolerance",
+             "set_ok:keyclass:stringkey", "set_ok:keyclass:uint32key", "set_ok:keyclass:int64key", "set_ok:keyclass:enumkey", "set_ok:keyclass:unionkey",
+             "set_ok:keyclass:boolkey", "set_ok:keyclass:multikey",
+             "set_ok:ykind:string", "set_ok:ykind:uint8", "set_ok:ykind:uint16", "set_ok:ykind:uint32", "set_ok:ykind:uint64", "set_ok:ykind:int8", "set_ok:ykind:int16",
+             "set_ok:ykind:int32", "set_ok:ykind:int64", "set_ok:ykind:boolean", "set_ok:ykind:decimal64", "set_ok:ykind:binary", "set_ok:ykind:empty",
+             "set_ok:ykind:enumeration", "set_ok:ykind:identityref", "set_ok:ykind:union", "set_ok:ykind:leafref"],
+     assumptions=["value domain restricted to type-correct payloads whose decoding is unambiguous by the schema; key leaves themselves are never set targets "
+                  "(setting a key leaf to a value other than its entry's key makes the entry unreachable by that path, which the property does not cover)"])
+
+
 def run_workers(binp, pid, tier, base_seed, total_runs, deadline_s, extra_args=None, env=None, workers=None):
     """Runs hsim over [base_seed, base_seed+total_runs) split across workers. Returns parsed lines."""
     workers = workers or min(NCPU, 16)
